@@ -49,6 +49,7 @@ def headers_digest():
     for pat in ("include/mujoco/*.h", "src/**/*.h", "src/**/*.inc", "plugin/**/*.h"):
         files += glob.glob(os.path.join(REPO, pat), recursive=True)
     files += glob.glob(os.path.join(SHIM, "**/*.h"), recursive=True)
+    files += glob.glob(os.path.join(VERIF, "harness", "**/*.h"), recursive=True)
     files.sort()
     h = hashlib.sha256()
     for f in files:
